@@ -205,6 +205,9 @@ def grid(rng, kind, n):
         return np.linspace(0.1, 10.0, n)
     if kind == "log":
         return np.logspace(-3, 2, n)
+    if kind == "plan" and n > 3000:
+        kind = "log"   # compounding steps of 1-20 % would overflow after ~4000 points
+        return np.logspace(-3, 2, n)
     if kind == "plan":
         f = [1e-3]
         for _ in range(n - 1):
@@ -216,7 +219,7 @@ def grid(rng, kind, n):
 def rms_case(rec, seedt):
     from speckit import dsp
     rng = gen.rng_for(*seedt)
-    n = int(rng.choice([1, 2, 3, 10, 200, 3000]))
+    n = int(rng.choice([1, 2, 3, 10, 200, 3000, 4097, 16385, 65537]))
     f = grid(rng, str(rng.choice(["linear", "log", "plan", "random", "notched", "zoomed",
                                   "symmetric"])), n)
     n = len(f)
